@@ -196,6 +196,34 @@ def one_case(run, exe, trace_model, idx, action, content, new):
     return res
 
 
+def corpus_plans():
+    """corpus/C20/*.txt: action, content(hex), kill|error, syscall, instance, errno"""
+    out = []
+    d = os.path.join(VERIF, "corpus", PROP)
+    if os.path.isdir(d):
+        for fn in sorted(os.listdir(d)):
+            if fn.endswith(".txt"):
+                for line in open(os.path.join(d, fn)):
+                    f = line.rstrip("\n").split("\t")
+                    if len(f) == 6 and not line.startswith("#"):
+                        out.append((f[0], unhex(f[1]), f[2], f[3], int(f[4]), None if f[5] == "-" else f[5]))
+    return out
+
+
+def run_plan(run, exe, idx, plan, new):
+    (action, content, kind, nm, k, e) = plan
+    d = os.path.join(run.scratch, "c20-corpus-%d" % idx)
+    os.makedirs(d, exist_ok=True)
+    setup(d, content)
+    inj = "%s:signal=SIGKILL:when=%d" % (nm, k) if kind == "kill" else "%s:error=%s:when=%d" % (nm, e, k)
+    rc = strace_run(exe, d, action, inject=inj)
+    after = state(d)
+    shutil.rmtree(d, ignore_errors=True)
+    if after not in (content, new):
+        return {"why": "preload file is neither the old nor the new content", "fault": {"kind": kind, "syscall": nm, "when": k, "errno": e}, "after": hexs(after), "rc": rc}
+    return None
+
+
 def model_new(run, cs):
     lines = [pl.case(pl.P_MAIN, c, "e" if a == "enable" else "d") for (a, c) in cs]
     out = pl.run_model(run, lines, "c20")
@@ -215,14 +243,32 @@ def check(run):
     exe = pl.build_ctl(run, san=False)
     cs = contents(run)
     news = model_new(run, cs)
+    # --- corpus first
+    plans = corpus_plans()
+    pnews = model_new(run, [(p[0], p[1]) for p in plans]) if plans else []
+    corpus_bad = []
+    for i, (pl_, pn) in enumerate(zip(plans, pnews)):
+        v = run_plan(run, exe, i, pl_, pn)
+        if v:
+            corpus_bad.append((pl_, pn, v))
 
     def job(i):
         return one_case(run, exe, trace_model, i, cs[i][0], cs[i][1], news[i])
     with ThreadPoolExecutor(pl.WORKERS) as ex:
         results = list(ex.map(job, range(len(cs))))
-    nruns = sum(r["runs"] for r in results)
+    nruns = sum(r["runs"] for r in results) + len(plans)
     nv = 0
     seen = set()
+    for (pl_, pn, v) in corpus_bad:
+        f = v["fault"]
+        sig = "atomic:%s" % f["kind"]
+        if sig in seen:
+            continue
+        seen.add(sig)
+        what = "%s on entry of %s #%d" % ("killed" if f["kind"] == "kill" else f["errno"], f["syscall"], f["when"])
+        run.violation(sig, "spec_violation", "%s: snoopyctl %s, %s (corpus case); old=%r new=%r found=%r" % (v["why"], pl_[0], what, (pl_[1] or b"")[:60], (pn or b"")[:60], (unhex(v["after"]) or b"")[:60]),
+                      {"failing_input": {"action": pl_[0], "content": hexs(pl_[1]), "fault": f}, "old": hexs(pl_[1]), "new": hexs(pn), "after": v["after"]})
+        nv += 1
     for (a, c), new, r in zip(cs, news, results):
         for v in r["violations"]:
             f = v["fault"]
@@ -248,7 +294,7 @@ def check(run):
                 "open/write/fsync/close/rename/fchmod/fchown instance x {ENOSPC, EIO, EDQUOT}; after each, the file must be the old or the new content; "
                 "non-trivial = case in which the content changes",
         "samples": [{"action": a, "content": ("~" if c is None else c[:60].decode("latin1")), "syscalls": r["nsys"], "ops": r["observed"]} for (a, c), r in list(zip(cs, results))[:5]],
-        "distribution": {"cases": len(cs), "runs": nruns, "model_trace": trace_model, "trace_mismatches": len(mism),
+        "distribution": {"cases": len(cs), "corpus_plans": len(plans), "runs": nruns, "model_trace": trace_model, "trace_mismatches": len(mism),
                          "violations": sum(len(r["violations"]) for r in results)},
         "traces_validated_against_impl": len(cs) - len(mism),
     })
